@@ -128,8 +128,11 @@ func (s Sem) spell(rng *rand.Rand) *cors.Config {
 	}
 	rng.Shuffle(len(c.Methods), func(i, j int) { c.Methods[i], c.Methods[j] = c.Methods[j], c.Methods[i] })
 
+	spelled := map[string]string{} // how each request-header name was spelled: a response-header name may be spelled identically
 	for _, n := range s.HNames {
-		c.RequestHeaders = append(c.RequestHeaders, randCase(rng, n))
+		sp := randCase(rng, n)
+		spelled[n] = sp
+		c.RequestHeaders = append(c.RequestHeaders, sp)
 	}
 	if s.HStar {
 		c.RequestHeaders = append(c.RequestHeaders, "*")
@@ -154,6 +157,8 @@ func (s Sem) spell(rng *rand.Rand) *cors.Config {
 			if rng.Intn(2) == 0 {
 				c.ResponseHeaders = append(c.ResponseHeaders, "X-Next-To-Star")
 			}
+		} else if sp, ok := spelled[n]; ok && rng.Intn(4) != 0 {
+			c.ResponseHeaders = append(c.ResponseHeaders, sp) // byte-identical to the entry of RequestHeaders
 		} else {
 			c.ResponseHeaders = append(c.ResponseHeaders, randCase(rng, n))
 		}
